@@ -526,6 +526,24 @@ class Analysis:
                 if r[0] == "local" and self.local_tk[r[1]].get("k") == "closure":
                     t = dict(t)
                     t["f"] = dict(t["f"], res=self.local_tk[r[1]]["path"])
+                elif r[0] == "local":
+                    # a generic parameter of an inlined helper holding a closure or a function item
+                    val = self.read_opt(st, r)
+                    if val is not None and val[0] == "agg" and isinstance(val[1], str) and val[1].startswith("closure:"):
+                        t = dict(t)
+                        t["f"] = dict(t["f"], res=val[1][len("closure:"):])
+                    elif val is not None and val[0] == "fn":
+                        t = dict(t)
+                        t["f"] = dict(t["f"], res=val[1], untupled=True)
+                        tup = args[1] if len(args) > 1 else None
+                        if tup is not None and tup[0] == "agg" and tup[1] == "tuple":
+                            args = list(tup[2])
+                elif r[0] == "fn":
+                    t = dict(t)
+                    t["f"] = dict(t["f"], res=r[1], untupled=True)
+                    tup = args[1] if len(args) > 1 else None
+                    if tup is not None and tup[0] == "agg" and tup[1] == "tuple":
+                        args = list(tup[2])
             v = self.call_value(st, t, args, site)
             dest = self.loc(st, t["dest"])
             # value of what each pointer argument points to, before the call
